@@ -348,7 +348,8 @@ class BzrUploader:
                         f"Clearing {self.to_transport.external_url()}/{relpath}\n"
                     )
                 self._up_delete_tree(relpath)
-            elif stat.S_ISLNK(st.st_mode):
+            else:
+                # a symlink, or a file where a symlink must go
                 if not self.quiet:
                     self.outf.write(
                         f"Clearing {self.to_transport.external_url()}/{relpath}\n"
@@ -526,7 +527,9 @@ class BzrUploader:
         Finishes the two-stage rename process by renaming all temporarily
         named files to their final destinations.
         """
-        for stamp, new_path in self._pending_renames:
+        # Parents first: a renamed directory must be in place before what is
+        # renamed into it.
+        for stamp, new_path in sorted(self._pending_renames, key=lambda r: r[1]):
             self._up_rename(stamp, new_path)
         # The following shouldn't be needed since we use it once per upload,
         # but better safe than sorry ;-)
@@ -613,7 +616,10 @@ class BzrUploader:
                 else:
                     raise NotImplementedError
 
-            for change in changes.renamed:
+            # changes.renamed is sorted by old path, parents first: stage the
+            # children of a renamed directory before the directory itself,
+            # while their old paths still exist.
+            for change in reversed(changes.renamed):
                 if self.is_ignored(change.path[0]) and self.is_ignored(change.path[1]):
                     if not self.quiet:
                         self.outf.write(f"Ignoring {change.path[0]}\n")
@@ -643,7 +649,7 @@ class BzrUploader:
                     self.upload_file(change.path[1], change.path[1])
                 elif change.kind[1] == "symlink":
                     target = self.tree.get_symlink_target(change.path[1])
-                    self.upload_symlink(change.path[1], target)
+                    self.upload_symlink_robustly(change.path[1], target)
                 elif change.kind[1] == "directory":
                     self.make_remote_dir(change.path[1])
                 else:
@@ -661,7 +667,7 @@ class BzrUploader:
                 elif change.kind[1] == "symlink":
                     target = self.tree.get_symlink_target(change.path[1])
                     try:
-                        self.upload_symlink(change.path[1], target)
+                        self.upload_symlink_robustly(change.path[1], target)
                     except transport_errors.TransportNotPossible:
                         if not self.quiet:
                             self.outf.write(
@@ -680,7 +686,7 @@ class BzrUploader:
                     self.upload_file(change.path[1], change.path[1])
                 elif change.kind[1] == "symlink":
                     target = self.tree.get_symlink_target(change.path[1])
-                    self.upload_symlink(change.path[1], target)
+                    self.upload_symlink_robustly(change.path[1], target)
                 else:
                     raise NotImplementedError
 
